@@ -81,7 +81,11 @@ def leaf_variants(v, wide=False, hint=None, text=False):
         else:
             cands = [('str:empty', ''), ('str:a', 'a'), ('str:upper', v.upper()), ('str:lower', v.lower()),
                      ('str:swapcase', v.swapcase()), ('str:space', (v[:1] + ' ' + v[1:]) if v else ' '),
-                     ('str:nonascii', v + 'é'), ('str:len255', 'x' * 255), ('str:len256', 'x' * 256)]
+                     ('str:nonascii', v + 'é'), ('str:len255', 'x' * 255), ('str:len256', 'x' * 256),
+                     # length-prefixed strings carry any octet: the characters regular expressions, splitlines() and
+                     # C strings treat specially
+                     ('str:lf', v[:1] + '\n' + v[1:]), ('str:cr', v + '\r'), ('str:nul', v[:1] + '\x00' + v[1:]),
+                     ('str:tab', '\t' + v)]
         seen = {v}
         for tag, x in cands:
             if x not in seen:
